@@ -128,12 +128,22 @@ class CaseTimeout(BaseException):
     """not an `Exception`: the code under test catches those (and would go on looping)"""
 
 
+_ARMED = [0.0, 0.0, 20]  # wall clock and CPU time of this process when the watchdog was armed, and the allowance
+
+
 def _on_alarm(signum, frame):
-    raise CaseTimeout('case did not finish within %d s' % CASE_TIMEOUT)
+    # a busy machine is not a hang: the case is given up when this process itself has computed for most of the
+    # allowance (an endless loop of the code under test does), or when six times the allowance has passed
+    wall = time.time() - _ARMED[0]
+    cpu = time.process_time() - _ARMED[1]
+    if cpu < 0.6 * _ARMED[2] and wall < 6 * _ARMED[2]:
+        return
+    raise CaseTimeout('case did not finish within %d s' % _ARMED[2])
 
 
 def _arm(seconds=None):
     import signal
+    _ARMED[0], _ARMED[1], _ARMED[2] = time.time(), time.process_time(), seconds or CASE_TIMEOUT
     signal.signal(signal.SIGALRM, _on_alarm)
     signal.setitimer(signal.ITIMER_REAL, seconds or CASE_TIMEOUT, 1.0)   # re-fires should it be swallowed
 
